@@ -74,6 +74,35 @@ def run(ctx):
                            "shape": name, "N": n, "at_N": pa, "at_50N": pb, "source_N": cases[i], "source_50N": cases[i + 1]})
         if len(samples) < 4:
             samples.append({"shape": name, "N": n, "at_N": pa, "at_50N": pb})
+    # translation validation: the extracted verifier (which accepts a tail call only with the exact
+    # call shape on the operand stack) on every shape above and on message-driven nilary loops,
+    # which a synchronous run cannot iterate
+    tv_rejected = tv_ok = 0
+    qc = ctx.harness("qv_compile")
+    drv = ctx.driver("wf")
+    if qc and drv:
+        loops = []
+        for msgs in (["Tick"], ["Tick", "Add"], ["Add"]):
+            for flow in ("=%s[_] => ^", "=%s[x] => x ^", "=%s[x] => [x, 1] __integer_add__ ^"):
+                arms = " ".join("| " + (flow % m) for m in msgs)
+                decl = " | ".join("%s['int]" % m for m in msgs)
+                loops.append("'m = Stop | %s, loop = #{ !#'m { | =Stop => Ok %s } }, p = @loop, %s, Stop p, !p" % (
+                    decl, arms, ", ".join("%s[%d] p" % (m, j) for j, m in enumerate(msgs))))
+        tv_src = [tmpl % 7 for _, tmpl in SHAPES] + loops
+        rc1, comp = ctx.run_bin(qc, [sexpr.quote(x) for x in tv_src], timeout=900)
+        rc2, ver = ctx.run_bin(drv, comp, timeout=900)
+        for src, c, v in zip(tv_src, comp, ver):
+            if not c.startswith("(compiled"):
+                continue
+            if " reject " in v:
+                tv_rejected += 1
+                ctx.violation({"kind": "translation-validation-rejection",
+                               "what": "the verified bytecode checker (exact call shape at every tail call) rejects a tail-recursive function the compiler emitted",
+                               "source": src, "verdict": v[:400]}, no_input=True)
+            else:
+                tv_ok += 1
+    ctx.cov["tail_recursive_programs_verified"] = tv_ok
+    ctx.cov["tail_recursive_programs_rejected"] = tv_rejected
     ctx.cov.update({
         "evaluations": evals, "distinct_nontrivial": pairs,
         "rule": "each tail-recursive shape (self `^`, `^f` into a loop, pair accumulator, from nested blocks/branches, with closures, with binaries created and dropped per iteration) is run on the real VM with profiling at N and 50N for several N; non-trivial = both runs completed and were compared; distinct by (shape, N)",
